@@ -458,6 +458,11 @@ func (fv *FuncVerifier) evalFuncCall(fn *types.Func, call *ast.CallExpr, st *Sta
 					fv.u.note("calls into %s are ignored here (opaque results, no modelled effect): %s", ip, key)
 					fv.evalReceiverChain(call, st)
 					fv.havocAddressedLocals(call, st)
+					// the call's own (instantiated) result type: a generic callee's signature
+					// would give type parameters
+					if ct := fv.typeOf(call); ct != nil {
+						return fv.havocResults(ct, st)
+					}
 					return fv.havocResults(sig.Results(), st)
 				}
 			}
